@@ -104,6 +104,10 @@ def run(ctx):
     from .c02 import decscale_rule, freezemap_rule
     decscale_rule(ctx)
     freezemap_rule(ctx)
+    # pooled scratch buffers come back empty: stale bytes in a reused configuration break the round trip of the next
+    # value (shared with C02 / C13 / C14 / C15)
+    from .c14 import pool_rule
+    pool_rule(ctx)
     from .c07 import resolution_rules
     resolution_rules(ctx)
     # the reading primitives hand over exactly the bytes of the value (shared with C03 / C11)
@@ -151,6 +155,51 @@ def run(ctx):
     name_pair(ctx)
     cap_reg(ctx, sm)
     borrow(ctx)
+    enum_presentation_rule(ctx, dm)
+
+
+def enum_presentation_rule(ctx, dm=None):
+    """An Avro enum is matched to the caller's variants by SYMBOL: the serializer resolves a unit variant by its name,
+    so every hint through which a Rust enum / identifier / string asks for the value (identifier, any, str, string)
+    must present the symbol text (read_enum_as_str), never the bare position in the schema's symbol list - a Rust enum
+    declaring its variants in another order, or only some of them, would silently decode to a different variant."""
+    f = ctx.f
+    dm = dm if dm is not None else de_matrix(f)
+    allb = datum_deserializer_bodies(f)
+
+    def cell_tokens(name, depth=0):
+        if name in dm:
+            b, cells = dm[name]
+            for variants, r, toks in cells:
+                if 'Enum' in variants:
+                    return b, [t[0] for t in toks]
+            return b, None
+        b = allb.get(name)
+        if b is None:
+            return None, None
+        return b, [t[0] for t in region_tokens_de(b, b.live_blocks(), f)]
+
+    def resolve(name, depth=0, seen=()):
+        b, toks = cell_tokens(name)
+        if toks is None or depth > 4 or name in seen:
+            return b, set()
+        out = set()
+        for tok in toks:
+            if tok[0] == 'FWD':
+                out |= resolve(tok[1], depth + 1, seen + (name,))[1]
+            else:
+                out.add(tok[0])
+        return b, out
+    n = 0
+    for hint in ('deserialize_identifier', 'deserialize_any', 'deserialize_str', 'deserialize_string'):
+        b, kinds = resolve(hint)
+        if b is None:
+            continue
+        n += 1
+        ok = 'ENUMSTR' in kinds and not ({'DISCRAW', 'VARINT'} & kinds)
+        ctx.ob('ENUMSYM', hint, ok, short_loc(b.span),
+               'an enum asked for through %s is presented by symbol text: %s (reads in that cell: %s)' % (hint, ok, sorted(kinds & set(WIRE_KINDS)) or 'none'))
+    ctx.floor('ENUMSYM', 'hints', n, 4)
 
 
 def name_pair(ctx):
